@@ -307,8 +307,10 @@ def dea_first_iteration(repo):
             for c in value.comparisons():
                 tests.append(('%r %s %r' % (c[2], c[1], c[3]))[:160])
                 cmps.append(c)
+            branches.append(value)
         return guards_off(ast.unparse(node), True, value)
     cmps = []
+    branches = []
     I, models = make(repo, oracle)
     D = I.get_global('extrapolation', 'Dea')
     D(limexp=3)(Poly.sym('w0'))      # an earlier object of the same process, already used: it shares nothing with the next
@@ -317,7 +319,7 @@ def dea_first_iteration(repo):
     out = None
     for k in range(3):
         out = obj(e[k])
-    return {'value': out[0], 'abserr': out[1], 'tests': tests, 'cmps': cmps}
+    return {'value': out[0], 'abserr': out[1], 'tests': tests, 'cmps': cmps, 'branches': branches}
 
 
 def provably_nonneg(v):
@@ -367,6 +369,27 @@ def dea_vs_dea3(ctx, ex):
               {'dea3_compares_with_1e-4': [repr(c[1])[:160] for c in irr3][:2], 'Dea_compares_with_1e-4': [repr(d)[:160] for d in irrd][:2],
                'without_counterpart': differing[:2]},
               'the same irregularity measure in both', 'three terms: the irregular-behaviour test of dea3 and of Dea', key='dea-dea3 guard')
+    # ... and nothing else decides whether it applies: the branch of Dea that reads the 1e-4 comparison reads no other test
+    # of the data (dea3 applies the measure unconditionally), e.g. no `e_1 != 0 and ...` in front of it
+    def leaves(e):
+        e = e.expr if isinstance(e, Unk) else e
+        if isinstance(e, tuple) and e and e[0] in ('and', 'or'):
+            return leaves(e[1]) + leaves(e[2])
+        if isinstance(e, tuple) and e and e[0] == 'not':
+            return leaves(e[1])
+        return [e]
+    mixed = []
+    for b in info.get('branches', []):
+        ls = leaves(b)
+        has_measure = any(isinstance(l_, tuple) and l_ and l_[0] == 'cmp' and ndarr.concrete_real(l_[3]) == Fr(1, 10000) for l_ in ls)
+        others = [l_ for l_ in ls if not (isinstance(l_, tuple) and l_ and l_[0] == 'cmp' and
+                                          (ndarr.concrete_real(l_[3]) == Fr(1, 10000) or _has_eps(l_[3]) or _has_eps(l_[2])))]
+        if has_measure and others:
+            mixed.append([repr(o)[:100] for o in others][:2])
+    rep.check(not mixed, 'R-DEA-DEA3', 'extrapolation.Dea._dea', where_cls(ex, 'Dea', '_dea'),
+              {'other_tests_in_the_branch_of_the_irregularity_measure': mixed[:2]},
+              'the irregular-behaviour test of Dea is the measure against 1e-4 (and the convergence tests), as in dea3',
+              'three terms: what the irregular-behaviour branch of Dea reads', key='dea-dea3 guard')
     r3 = all_b(r3)
     ok = same(info['value'], r3)
     # same three tests: compare the left hand sides |e1-e0|, |e2-e1|, |sss*e1|
